@@ -19,7 +19,10 @@
 #include "mkstream.h"
 
 #define C7_SLOTS 4
-typedef struct { OggVorbis_File vf; memsrc ms; int open; long seq[64]; } c7_handle;
+typedef struct { OggVorbis_File vf; memsrc ms; int open; long seq[64];
+  /* cross-lap expectation for the next reads: audio that followed the old position, landing position, lap length */
+  int lap_valid,lap_oldlink,lap_n,lap_ch1,lap_hs,lap_oldunk,lap_newlink,stale; long lap_k; ogg_int64_t lap_oldpos,lap_newpos; } c7_handle;
+extern const float *_vorbis_window_get(int n);
 static c7_handle c7h[C7_SLOTS];
 static buf_t c7_phys={0,0,0};
 static long c7_linkoff[65]; static int c7_nlinks=0;   /* byte range of every 'link' appended */
@@ -101,6 +104,42 @@ static void c7_refpk(int hs,int li){
   if(inited){ vorbis_block_clear(&vb); vorbis_dsp_clear(&vd); }
   if(have_os)ogg_stream_clear(&os);
   vorbis_comment_clear(&vc); vorbis_info_clear(&vi); ogg_sync_clear(&oy);
+}
+
+/* expected output inside a cross-lapped region: new*w^2 + old*(1-w^2) on the channels both have, new*w^2 on extra new channels.
+   returns 1 all samples as expected, 0 mismatch, 2 the old audio is not in the reference (end of link: overlap half) so only the
+   part beyond the lap region was compared */
+static int c7_check_lap(c7_handle *H,int hs,float **pcm,long r,int bs,ogg_int64_t pos){
+  c7_reflink *Ln,*Lo; long j; int c,unknown=0; const float *w; int widx=0,k;
+  c7_mis_n=0; c7_mis_first=c7_mis_last=-1;
+  if(!c7_ref[hs]||bs<0||bs>=c7_refn[hs]||H->lap_oldlink<0||H->lap_oldlink>=c7_refn[hs])return -1;
+  Ln=&c7_ref[hs][bs]; Lo=&c7_ref[hs][H->lap_oldlink];
+  for(k=H->lap_n;k>32;k>>=1)widx++;
+  w=_vorbis_window_get(widx);
+  for(j=0;j<r;j++){
+    ogg_int64_t reln=((pos-Ln->start)>>hs)+j;               /* index into the new link's reference */
+    ogg_int64_t li=((pos-H->lap_newpos)>>hs)+j;              /* index into the lap region */
+    int bad=0;
+    if(reln<0||reln>=Ln->frames){ bad=1; }
+    else for(c=0;c<Ln->ch;c++){
+      float d=Ln->data[reln*Ln->ch+c],e;
+      if(li>=0&&li<H->lap_n&&bs==H->lap_newlink){
+        float wd=w[li]*w[li];
+        if(li>=H->lap_k){ unknown=1; continue; } /* past the primed output: spliced before the block overlap, not comparable */
+        if(c<H->lap_ch1){
+          ogg_int64_t relo=((H->lap_oldpos-Lo->start)>>hs)+li; float ws=1.-wd,sv;
+          if(H->lap_oldunk||relo<0||relo>=Lo->frames){ unknown=1; continue; }
+          sv=Lo->data[relo*Lo->ch+c];
+          e=d*wd + sv*ws;
+        }else e=d*wd;
+      }else e=d;
+      if(memcmp(&e,&pcm[c][j],4))bad=1;
+    }
+    if(bad){ if(c7_mis_first<0)c7_mis_first=j; c7_mis_last=j; c7_mis_n++; }
+  }
+  if(((pos-H->lap_newpos)>>hs)+r>=H->lap_n)H->lap_valid=0;
+  if(c7_mis_n)return 0;
+  return unknown?2:1;
 }
 
 static void c7_table(void){
@@ -225,7 +264,7 @@ static int c07_main(int argc,char **argv){
     }else if((!strcmp(op,"open")||!strcmp(op,"test"))&&n>=4){
       int s=atoi(tok[1])%C7_SLOTS; c7_handle *H=&c7h[s]; int seekable=atoi(tok[2]); int rc;
       if(H->open){ ov_clear(&H->vf); H->open=0; }
-      ms_init(&H->ms,c7_phys.p,c7_phys.n,seekable); H->ms.chunk=atol(tok[3]); memset(H->seq,0,sizeof H->seq);
+      ms_init(&H->ms,c7_phys.p,c7_phys.n,seekable); H->ms.chunk=atol(tok[3]); memset(H->seq,0,sizeof H->seq); H->lap_valid=0; H->stale=0;
       if(n>=7){ H->ms.fault_at=atol(tok[4]); H->ms.fault_kind=atoi(tok[5]); H->ms.fault_persist=atoi(tok[6]); }
       rc=(op[0]=='o')?ov_open_callbacks(&H->ms,&H->vf,NULL,0,ms_callbacks(seekable)):ov_test_callbacks(&H->ms,&H->vf,NULL,0,ms_callbacks(seekable));
       printf("%s rc=%s closed=%d",op,ovname(rc),H->ms.closed);
@@ -257,7 +296,8 @@ static int c07_main(int argc,char **argv){
         float **pcm; int bs=-7; ogg_int64_t t0=ov_pcm_tell(vf); int hs=ov_halfrate_p(vf)>0; long r=ov_read_float(vf,&pcm,atoi(tok[2]),&bs); ogg_int64_t t1=ov_pcm_tell(vf);
         int ok=-1;
         if(r>0){
-          if(vf->seekable) ok=c7_check(hs,pcm,r,bs,t0);
+          if(vf->seekable&&H->lap_valid&&H->lap_hs==hs) ok=c7_check_lap(H,hs,pcm,r,bs,t0);
+          else if(vf->seekable) ok=c7_check(hs,pcm,r,bs,t0);
           else if(bs>=0&&bs<64&&c7_ref[hs]&&bs<c7_refn[hs]){ /* streaming: positions restart per link; compare sequentially */
             ok=c7_check(hs,pcm,r,bs,c7_ref[hs][bs].start+(H->seq[bs]<<hs)); H->seq[bs]+=r; }
         }
@@ -270,18 +310,40 @@ static int c07_main(int argc,char **argv){
         printf("readi rc=%s link=%d t0=%lld t1=%lld\n",ovname(r),r>0?bs:-1,(long long)t0,(long long)ov_pcm_tell(vf)); free(buf);
       }else if(!strncmp(op,"rawseek",7)||!strncmp(op,"pcmseekpage",11)||!strncmp(op,"pcmseek",7)){
         ogg_int64_t pos=atoll(tok[2]); int lap=(strstr(op,"lap")!=NULL); int rc;
+        ogg_int64_t oldpos=ov_pcm_tell(vf); int oldlink=vf->ready_state>=STREAMSET?vf->current_link:-1; int ohs=ov_halfrate_p(vf)>0;
+        int on=(oldlink>=0&&vf->vi)?(vorbis_info_blocksize(vf->vi+oldlink,0)>>(1+ohs)):0; int och=(oldlink>=0&&vf->vi)?vf->vi[oldlink].channels:0;
+        int pend=H->lap_valid||H->stale; /* the audio at the old position is itself still cross-faded, or the decoder is ahead of the position (after ov_crosslap) */
+        H->lap_valid=0;
         if(!strncmp(op,"rawseek",7)) rc=lap?ov_raw_seek_lap(vf,pos):ov_raw_seek(vf,pos);
         else if(!strncmp(op,"pcmseekpage",11)) rc=lap?ov_pcm_seek_page_lap(vf,pos):ov_pcm_seek_page(vf,pos);
         else rc=lap?ov_pcm_seek_lap(vf,pos):ov_pcm_seek(vf,pos);
+        if(lap&&rc==0&&vf->ready_state>=STREAMSET&&on>0){ int nn=vorbis_info_blocksize(vf->vi+vf->current_link,0)>>(1+ohs);
+          H->lap_valid=1; H->lap_oldpos=oldpos; H->lap_oldlink=oldlink; H->lap_newpos=ov_pcm_tell(vf); H->lap_n=on<nn?on:nn; H->lap_ch1=och; H->lap_hs=ohs; H->lap_oldunk=pend; H->lap_newlink=vf->current_link; H->lap_k=vorbis_synthesis_pcmout(&vf->vd,NULL); }
+        if(rc==OV_EINVAL||rc==OV_ENOSEEK)H->lap_valid=pend&&!H->stale; else H->stale=0; /* refused: nothing moved */
         printf("%s rc=%s tell=%lld state=%d link=%d\n",op,ovname(rc),(long long)ov_pcm_tell(vf),vf->ready_state,vf->ready_state>=STREAMSET?vf->current_link:-1);
       }else if(!strncmp(op,"timeseek",8)){
         double t=atof(tok[2])/1000.; int lap=(strstr(op,"lap")!=NULL); int page=(strstr(op,"page")!=NULL); int rc;
+        ogg_int64_t oldpos=ov_pcm_tell(vf); int oldlink=vf->ready_state>=STREAMSET?vf->current_link:-1; int ohs=ov_halfrate_p(vf)>0;
+        int on=(oldlink>=0&&vf->vi)?(vorbis_info_blocksize(vf->vi+oldlink,0)>>(1+ohs)):0; int och=(oldlink>=0&&vf->vi)?vf->vi[oldlink].channels:0;
+        int pend=H->lap_valid||H->stale; /* the audio at the old position is itself still cross-faded, or the decoder is ahead of the position (after ov_crosslap) */
+        H->lap_valid=0;
         if(page) rc=lap?ov_time_seek_page_lap(vf,t):ov_time_seek_page(vf,t); else rc=lap?ov_time_seek_lap(vf,t):ov_time_seek(vf,t);
+        if(lap&&rc==0&&vf->ready_state>=STREAMSET&&on>0){ int nn=vorbis_info_blocksize(vf->vi+vf->current_link,0)>>(1+ohs);
+          H->lap_valid=1; H->lap_oldpos=oldpos; H->lap_oldlink=oldlink; H->lap_newpos=ov_pcm_tell(vf); H->lap_n=on<nn?on:nn; H->lap_ch1=och; H->lap_hs=ohs; H->lap_oldunk=pend; H->lap_newlink=vf->current_link; H->lap_k=vorbis_synthesis_pcmout(&vf->vd,NULL); }
+        if(rc==OV_EINVAL||rc==OV_ENOSEEK)H->lap_valid=pend&&!H->stale; else H->stale=0;
         printf("%s rc=%s tell=%lld state=%d link=%d\n",op,ovname(rc),(long long)ov_pcm_tell(vf),vf->ready_state,vf->ready_state>=STREAMSET?vf->current_link:-1);
       }else if(!strcmp(op,"halfrate")&&n>=3){
-        int rc=ov_halfrate(vf,atoi(tok[2])); printf("halfrate rc=%s p=%d tell=%lld\n",ovname(rc),ov_halfrate_p(vf),(long long)ov_pcm_tell(vf));
+        int rc=ov_halfrate(vf,atoi(tok[2])); H->lap_valid=0; printf("halfrate rc=%s p=%d tell=%lld\n",ovname(rc),ov_halfrate_p(vf),(long long)ov_pcm_tell(vf));
       }else if(!strcmp(op,"crosslap")&&n>=3){
-        c7_handle *H2=&c7h[atoi(tok[2])%C7_SLOTS]; int rc=H2->open?ov_crosslap(vf,&H2->vf):-9999; printf("crosslap rc=%s\n",ovname(rc));
+        c7_handle *H2=&c7h[atoi(tok[2])%C7_SLOTS]; int rc;
+        ogg_int64_t oldpos=ov_pcm_tell(vf); int h1=ov_halfrate_p(vf)>0;
+        rc=H2->open?ov_crosslap(vf,&H2->vf):-9999;
+        { int pend=H->lap_valid||(H2->open&&H2->lap_valid); if(H2->open){ H2->lap_valid=0; H2->lap_oldunk=pend; } }
+        H->lap_valid=0; if(rc==0)H->stale=1; /* its lapping audio has been consumed without the position moving: see the C19 notes */
+        if(rc==0&&H2!=H&&vf->ready_state>=STREAMSET&&H2->vf.ready_state>=STREAMSET&&h1==(ov_halfrate_p(&H2->vf)>0)){
+          int on=vorbis_info_blocksize(vf->vi+vf->current_link,0)>>(1+h1), nn=vorbis_info_blocksize(H2->vf.vi+H2->vf.current_link,0)>>(1+h1);
+          H2->lap_valid=1; H2->lap_oldpos=oldpos; H2->lap_oldlink=vf->current_link; H2->lap_newpos=ov_pcm_tell(&H2->vf); H2->lap_n=on<nn?on:nn; H2->lap_ch1=vf->vi[vf->current_link].channels; H2->lap_hs=h1; H2->lap_newlink=H2->vf.current_link; H2->lap_k=vorbis_synthesis_pcmout(&H2->vf.vd,NULL); }
+        printf("crosslap rc=%s\n",ovname(rc));
       }else if(!strcmp(op,"clear")){
         int rc=ov_clear(vf); H->open=0; printf("clear rc=%d closed=%d\n",rc,H->ms.closed);
       }else printf("bad-op %s\n",op);
